@@ -27,6 +27,7 @@ Definition default_q : positive := 2%positive.
 Record qspec := mkQ {
   qparent : option positive;   (* Spec.Parent, None = "" *)
   qalloc : Z;                  (* Status.Allocated[pods] (0 = absent or zero) *)
+  qstate : Z;                  (* Status.State: 0 "", 1 Open, 2 Closed, 3 Closing, 4 Unknown *)
   qcap : rlist;                (* Spec.Capability *)
   qdes : rlist;                (* Spec.Deserved *)
   qguar : rlist                (* Spec.Guarantee.Resource *)
@@ -40,7 +41,9 @@ Inductive req :=
 | Create (n : positive) (s : qspec)
 | Update (n : positive) (s : qspec)        (* qalloc of s is ignored: the status is kept *)
 | Delete (n : positive)
-| EnvAlloc (n : positive) (a : Z).         (* status update by the scheduler, not an admission request *)
+| EnvStatus (n : positive) (a st : Z).     (* status update by the scheduler / queue controller, not an
+                                              admission request: allocated pods := a, state := st,
+                                              a negative value leaving the field as it is *)
 
 Inductive verdict :=
 | VAllowed | VSpec | VSelfParent | VDepth | VAncMissing | VParentGet | VParentBusy | VRootProt
@@ -294,8 +297,12 @@ Definition same_resources (a b : qspec) : bool :=
   bool_decide (qcap a = qcap b) && bool_decide (qdes a = qdes b) && bool_decide (qguar a = qguar b).
 
 (* AdmitQueues, CREATE / UPDATE branch (81-116); [old] = None for CREATE *)
+(* validateStateOfQueue (205-224) on the Status.State the request object carries: the stored
+   status on UPDATE (the API server keeps the status on a spec update), none on CREATE *)
+Definition state_ok (st : Z) : bool := (st =? 0) || (st =? 1) || (st =? 2).
+
 Definition admit_cu_with (res : verdict) (c : cfg) (Q : queues) (n : positive) (s : qspec) (old : option qspec) : verdict :=
-  if negb (spec_ok s) then VSpec
+  if negb (spec_ok s && state_ok (match old with None => 0 | Some o => qstate o end)) then VSpec
   else
     let parent_changed := match old with None => true | Some o => negb (bool_decide (qparent o = qparent s)) end in
     match (if parent_changed then validate_hier c Q n s else VAllowed) with
@@ -322,7 +329,7 @@ Definition admit_delete (c : cfg) (Q : queues) (n : positive) : verdict :=
          else VAllowed
        end.
 
-Definition with_alloc (a : Z) (s : qspec) : qspec := mkQ (qparent s) a (qcap s) (qdes s) (qguar s).
+Definition with_status (a st : Z) (s : qspec) : qspec := mkQ (qparent s) a st (qcap s) (qdes s) (qguar s).
 
 (* what the implementation answers to a request *)
 Definition verdict_of (c : cfg) (Q : queues) (r : req) : verdict :=
@@ -330,17 +337,21 @@ Definition verdict_of (c : cfg) (Q : queues) (r : req) : verdict :=
   | Create n s => admit_cu c Q n s None
   | Update n s => match Q !! n with None => VNotInvoked | Some o => admit_cu c Q n s (Some o) end
   | Delete n => admit_delete c Q n
-  | EnvAlloc n a => match Q !! n with None => VNotInvoked | Some _ => VAllowed end
+  | EnvStatus n a st => match Q !! n with None => VNotInvoked | Some _ => VAllowed end
   end.
 
 (* what the API server does with an admitted request (storage semantics:
    create of an existing name and update/delete of a missing one change nothing) *)
 Definition apply_req (Q : queues) (r : req) : queues :=
   match r with
-  | Create n s => match Q !! n with None => <[n := with_alloc 0 s]> Q | Some _ => Q end
-  | Update n s => match Q !! n with None => Q | Some o => <[n := with_alloc (qalloc o) s]> Q end
+  | Create n s => match Q !! n with None => <[n := with_status 0 0 s]> Q | Some _ => Q end
+  | Update n s => match Q !! n with None => Q | Some o => <[n := with_status (qalloc o) (qstate o) s]> Q end
   | Delete n => delete n Q
-  | EnvAlloc n a => match Q !! n with None => Q | Some o => <[n := with_alloc a o]> Q end
+  | EnvStatus n a st =>
+    match Q !! n with
+    | None => Q
+    | Some o => <[n := with_status (if a <? 0 then qalloc o else a) (if st <? 0 then qstate o else st) o]> Q
+    end
   end.
 
 Definition apply_if_admitted (c : cfg) (Q : queues) (r : req) : queues :=
